@@ -95,6 +95,12 @@ def gen_client_ops(rng, thorough=False):
             s["peer"] = "silence"
             s["timeout"] = rng.choice([50, 150, 300])
             steps.append(s)
+        if fc in (3, 16) or thorough:
+            # a reply that violates the framing: reported as the framing error that breaks the connection
+            bf = dict(o)
+            bf["peer"] = "badframe"
+            bf["timeout"] = 1000
+            steps.append(bf)
     scs.append({"id": len(scs), "kind": "client_ops", "queue": 16, "steps": steps, "tag": "c18-ops-x-outcomes"})
     # (b) argument errors: the completion callback must still fire exactly once
     steps = [{"op": "enable", "peer": "reply"}]
